@@ -23,11 +23,20 @@
 import GoSecs.Lemmas.LifecycleTerm
 import GoSecs.Lemmas.LifecycleSim
 import GoSecs.Gen.Facts
+import GoSecs.Gen.Consts
 
 namespace GoSecs.Props.C10
 open GoSecs.Lifecycle
 
 /-! ## Tie to the source (regenerated on every run): the active Start's seal guard -/
+
+/-- **The farewell Separate's own write bound exists and is short** (constant `farewellWriteTimeout` regenerated from
+    package hsms): positive and at most one second. What is pinned here is the constant only; that the one write
+    Close makes on the supervisor goroutine before teardown is bounded by it rather than by `WithWriteTimeout` is
+    observed by the harness (c09_farewell.go, the C10 long-write-timeout histories) — after seeded C09f-2. -/
+theorem farewell_write_bound_gen :
+    0 < GoSecs.Gen.hsms_farewellWriteTimeout ∧ GoSecs.Gen.hsms_farewellWriteTimeout ≤ 1000000000 := by
+  decide
 
 /-- **Start into a sealed transport leaves no socket** (call-site order regenerated from the Go AST of hsmsss
     `transport.startActive`): the dial is made outside the start gate; under the gate's read lock the sealed branch
